@@ -40,6 +40,45 @@ pub fn cfg_tenant(k: &str) -> &str {
     match k { "kn1" => "n1", "kn2" => "n2", _ => "" }
 }
 
+/// Sizes.  The model's contents are names ("a", "b", "c"); with RNVERIF_BIG="c=2400000" the content named c is a text of
+/// that many bytes on the real node (records larger than one read of the snapshot / log readers, several chunks of a
+/// snapshot transfer), and is given its name back when the served state is projected.
+fn big() -> &'static Option<(String, usize)> {
+    static BIG: std::sync::OnceLock<Option<(String, usize)>> = std::sync::OnceLock::new();
+    BIG.get_or_init(|| {
+        let v = std::env::var("RNVERIF_BIG").ok()?;
+        let (k, n) = v.split_once('=')?;
+        Some((k.to_string(), n.parse().ok()?))
+    })
+}
+
+pub fn expand_content(v: &Value) -> Value {
+    if let (Some((k, n)), Some(s)) = (big(), v.as_str()) {
+        if s == k {
+            let mut t = String::with_capacity(*n);
+            t.push_str(k);
+            t.push('#');
+            let mut x: u32 = 12345;
+            while t.len() < *n {
+                // printable, not periodic within any power-of-two window
+                x = x.wrapping_mul(1103515245).wrapping_add(12345);
+                t.push((b'a' + ((x >> 16) % 26) as u8) as char);
+            }
+            return json!(t);
+        }
+    }
+    v.clone()
+}
+
+pub fn shrink_content(c: &Value) -> Value {
+    if let (Some((k, n)), Some(s)) = (big(), c.as_str()) {
+        if s.len() > 64 && s.starts_with(&format!("{}#", k)) {
+            return if s.len() == *n && json!(s) == expand_content(&json!(k)) { json!(k) } else { json!(format!("{}#DAMAGED(len {})", k, s.len())) };
+        }
+    }
+    c.clone()
+}
+
 /// the namespace a model instance key lives in (InstTenant of StateMachine.tla as the simulation configurations override
 /// it): the services named sn<i> live in the namespace n<i>, all others in the default namespace
 pub fn inst_tenant(svc: &str) -> &str {
@@ -55,7 +94,7 @@ fn cfg_key(k: &str) -> String {
 pub fn to_client_request(r: &Value, index: u64) -> Value {
     let k = r["k"].as_str().unwrap_or("");
     match r["t"].as_str().unwrap_or("") {
-        "cfg_set" => json!({"ConfigSet": {"key": cfg_key(k), "value": r["v"], "config_type": opt_str(&r["ty"]), "desc": opt_str(&r["ds"]),
+        "cfg_set" => json!({"ConfigSet": {"key": cfg_key(k), "value": expand_content(&r["v"]), "config_type": opt_str(&r["ty"]), "desc": opt_str(&r["ds"]),
             "history_id": r["hid"], "history_table_id": r["hid"], "op_time": 1000 + index, "op_user": null}}),
         "cfg_del" => json!({"ConfigRemove": {"key": cfg_key(k)}}),
         "ns_set" => json!({"NamespaceReq": {"Set": {"namespace_id": k, "namespace_name": opt_str(&r["v"]), "type": null}}}),
@@ -157,8 +196,8 @@ pub fn project(dump: &Value) -> Value {
         // key = tenant|group|dataId ; the model uses tenant "" and group GROUP
         let parts: Vec<&str> = k.splitn(3, '|').collect();
         let name = if parts.len() == 3 && parts[1] == GROUP && parts[0] == cfg_tenant(parts[2]) { parts[2].to_string() } else { k.clone() };
-        let hist: Vec<Value> = v["hist"].as_array().cloned().unwrap_or_default().iter().map(|h| json!({"id": h["id"], "content": h["content"]})).collect();
-        cfg.insert(name, json!({"content": v["content"], "ty": v["type"].as_str().unwrap_or(""), "desc": v["desc"].as_str().unwrap_or(""), "hist": hist}));
+        let hist: Vec<Value> = v["hist"].as_array().cloned().unwrap_or_default().iter().map(|h| json!({"id": h["id"], "content": shrink_content(&h["content"])})).collect();
+        cfg.insert(name, json!({"content": shrink_content(&v["content"]), "ty": v["type"].as_str().unwrap_or(""), "desc": v["desc"].as_str().unwrap_or(""), "hist": hist}));
     }
     let mut ns = Map::new();
     for (k, v) in as_map(&dump["ns"]) {
@@ -415,7 +454,7 @@ fn follower_path_echo(reqs: &[Value], groups: &[usize], echo: bool) -> anyhow::R
             let req = to_client_request(r, idx);
             node.call(&json!({"op":"append_req","index":idx,"term":1,"req":req}))?;
             if echo && r["t"] == "cfg_set" {
-                node.call(&json!({"op":"cfg_tmp","data_id":r["k"],"group":GROUP,"tenant":cfg_tenant(r["k"].as_str().unwrap_or("")),"value":r["v"]}))?;
+                node.call(&json!({"op":"cfg_tmp","data_id":r["k"],"group":GROUP,"tenant":cfg_tenant(r["k"].as_str().unwrap_or("")),"value":expand_content(&r["v"])}))?;
             }
             items.push(json!({"index": idx, "req": req}));
             idx += 1;
